@@ -77,6 +77,7 @@ type Prop struct {
 	Default        OptValue `json:"default"`
 	Disabled       bool     `json:"disabled"`
 	EmptyIsDefault bool     `json:"empty_is_default"`
+	Display        string   `json:"display,omitempty"` // display name (NewDisplayValue); "" = no display value
 }
 
 func (p *Prop) MarshalJSON() ([]byte, error) {
@@ -86,9 +87,13 @@ func (p *Prop) MarshalJSON() ([]byte, error) {
 		}
 		return x
 	}
-	return json.Marshal(map[string]any{"name": p.Name, "type": p.Type, "required": p.Required, "required_if": nn(p.RequiredIf),
+	m := map[string]any{"name": p.Name, "type": p.Type, "required": p.Required, "required_if": nn(p.RequiredIf),
 		"required_if_not": nn(p.RequiredIfNot), "conflicts": nn(p.Conflicts), "default": p.Default, "disabled": p.Disabled,
-		"empty_is_default": p.EmptyIsDefault})
+		"empty_is_default": p.EmptyIsDefault}
+	if p.Display != "" {
+		m["display"] = p.Display
+	}
+	return json.Marshal(m)
 }
 
 // Member is one member of a one-of: the discriminator value (int64 or token id) and the object / ref.
@@ -573,7 +578,7 @@ func (s *Schema) Shape() string {
 		parts := []string{}
 		for _, p := range s.Props {
 			parts = append(parts, p.Name+":"+p.Type.Shape()+"["+f(p.Required, "r")+fmt.Sprintf("i%v", p.RequiredIf)+fmt.Sprintf("n%v", p.RequiredIfNot)+
-				fmt.Sprintf("c%v", p.Conflicts)+f(p.Default.Some, "d")+f(p.Disabled, "x")+f(p.EmptyIsDefault, "e")+"]")
+				fmt.Sprintf("c%v", p.Conflicts)+f(p.Default.Some, "d")+f(p.Disabled, "x")+f(p.EmptyIsDefault, "e")+f(p.Display != "", "D")+"]")
 		}
 		return "object:" + s.Layout + f(s.Typed, "t") + "{" + strings.Join(parts, ",") + "}"
 	case "oneof":
